@@ -95,7 +95,7 @@ End SeederModel.
 (* src: MDP/Types.hpp: struct ValueFunction { Values values; Actions actions; } *)
 Record vfun := { vf_values : vec; vf_actions : list nat }.
 
-(* src: ValueIteration.hpp: private: tolerance_, horizon_, vParameter_; v1_ (scratch) *)
+(* src: ValueIteration.hpp: private members tolerance_, horizon_, the initial value function vP_; v1_ (scratch) *)
 Record vi_obj := { vi_tol : Q; vi_hor : nat; vi_param : vfun; vi_v1 : vfun }.
 
 (* src: MDP/Utils.cpp: makeValueFunction *)
@@ -136,11 +136,20 @@ Fixpoint vi_loop (m : mdp) (useTol : bool) (tol : Q) (fuel : nat) (variation : Q
 
 Definition make_qfun (S A : nat) : mat := repeat (vzero A) S.
 
+(* std::vector<size_t>::resize(n): truncate, or pad with zeros *)
+Definition resize_nat (l : list nat) (n : nat) : list nat := firstn n l ++ repeat 0 (n - length l).
+(* src: ValueIteration::operator(): `v1_ = <initial value function>; v1_.actions.resize(S);` when the sizes agree,
+   `v1_ = makeValueFunction(S)` otherwise — in both cases the scratch member is overwritten *)
+Definition vi_init (param : vfun) (S : nat) : vfun :=
+  if Nat.eqb (length (vf_values param)) S
+  then {| vf_values := vf_values param; vf_actions := resize_nat (vf_actions param) S |}
+  else make_vfun S.
+
 (* src: ValueIteration::operator()(const M & model).  Returns the object after the call (v1_ has
    been moved from: empty) and the result tuple. *)
 Definition vi_call (o : vi_obj) (m : mdp) : vi_obj * (Q * vfun * mat) :=
   let S := nS m in
-  let v1 := if Nat.eqb (length (vf_values (vi_param o))) S then vi_param o else make_vfun S in
+  let v1 := vi_init (vi_param o) S in
   let useTol := negb (eqSmall (vi_tol o) 0%Q) in
   let '(variation, v, q) := vi_loop m useTol (vi_tol o) (vi_hor o) (vi_tol o * 2)%Q v1 (make_qfun S (nA m)) in
   ({| vi_tol := vi_tol o; vi_hor := vi_hor o; vi_param := vi_param o;
